@@ -298,6 +298,19 @@ def close_mid_digest_script(rng, conf, pacer, fb):
     return mk_script("bwe", conf, pacer, fb, steps, base=rng.choice([0, 65000]))
 
 
+def close_mid_drain_script(rng, pacer, fb):
+    """Close while the pacer goroutine is in the middle of a burst: 60 packets are queued at 2 Mbit/s (a quarter of a second
+    of work) and Close is called at once - it must come back, the closed error afterwards, whatever the pacer still held."""
+    steps = [{"a": "send", "n": 10, "gap": 6000, "size": 1000}, {"a": "fb", "pat": "inc", "loss": 0},
+             {"a": "send", "n": 60, "gap": 0, "size": 1200}, {"a": "close"}]
+    if rng.random() < 0.5:
+        # ... or with one packet still INSIDE the transport and small packets queued behind it (several fit the budget of one
+        # pacing tick): Close is called, the transport comes back 30 ms later, the pacer goes on with its burst
+        steps = [{"a": "send", "n": 10, "gap": 6000, "size": 1000}, {"a": "fb", "pat": "inc", "loss": 0},
+                 {"a": "sendheld"}, {"a": "send", "n": 8, "gap": 0, "size": 100}, {"a": "closeheld"}]
+    return mk_script("bwe", 1, pacer, fb, steps, base=rng.choice([0, 65000]))
+
+
 def paced_script(rng, conf, pacer, fb, rounds):
     """rounds separated by 205 ms of wall clock, so that the loss-based side may move once per round (its increase and
     decrease steps are rate limited to one per 200 ms) and the published value changes often"""
@@ -760,6 +773,10 @@ def run(ctx):
         for fbk in FBS:
             for _ in range(2 if quick else 10):
                 rs.append(close_mid_digest_script(rng, rng.choice([0, 1]), pc, fbk))
+    for pc in ("leaky", "default"):
+        for fbk in FBS:
+            for _ in range(4 if quick else 12):
+                rs.append(close_mid_drain_script(rng, pc, fbk))
     # a loopback transport: every packet is acknowledged from inside the pacer's own Write (feedback re-enters the estimator
     # on the pacer goroutine while the script keeps sending and feeding)
     for pc in ("leaky", "default", "noop"):
